@@ -10,6 +10,7 @@ import itertools
 from hypothesis import strategies as st
 
 from pbt.core import HarnessError, Outcome
+from pbt.props import _decoys
 from pbt.instruments import clock as _clock, locks as _locks
 from pbt.instruments.clock import VirtualClock
 from pbt.instruments.locks import LockShim, SelfDeadlock
@@ -39,6 +40,7 @@ RULE += ' Clock gaps up to two days.'
 RULE += ' Bookkeeping calls between operations (get_statistics, clear_recycling_bin, get_recycled).'
 RULE += ' Equal-valued items: an ingest variant adds an item equal in every field to earlier ones (Waste compares by value); the accounting attributes a processed copy to the oldest copy still unaccounted for.'
 RULE += " `builtin` cases (1/10 generated + a table of 4 configurations x 4 types x 14 content shapes x 3 continuations) use the lysosome's own per-type digesters on arbitrary content: mis-typed fields, cyclic dicts and lists, objects with cleanup() (also raising, nested, self-referential), deep and big values; accounting by counts (ingested = queued + digested + errors + expired + emergency-dropped, the last only growing in an ingest at capacity), cleanup() at most once per resource. A call that burns 60 s of CPU is a finding (per-case CPU guard)."
+RULE += ' Round 7: a `decoy` (pbt/props/_decoys.py): a second object of the class, differently configured and put through a misleading script (same prompts / names / ids, opposite verdicts and limits), is built in the same process after the object under test.'
 EXHAUSTIVE_NOTE = {"quick": "all op sequences of length 1..3 over 13 ops x 4 configurations (4*(13+169+2197) = 9516), complete",
                    "thorough": "all op sequences of length 1..4 over 13 ops x 4 configurations (4*(13+169+2197+28561) = 123760), complete"}
 
@@ -79,7 +81,7 @@ _bop = st.one_of(
 def strategy(tier):
     # `builtin`: no custom digesters - the lysosome's own per-type digesters look into the items' content (any Python object is legal content)
     builtin = st.fixed_dictionaries({"builtin": st.just(True), "cfg": _cfg, "ops": st.lists(_bop, min_size=1, max_size=14)})
-    return st.integers(0, 9).flatmap(lambda k: builtin if k == 0 else _strategy_main())
+    return _decoys.with_decoy(st.integers(0, 9).flatmap(lambda k: builtin if k == 0 else _strategy_main()))
 
 
 def _strategy_main():
@@ -276,6 +278,9 @@ def _judge_builtin(case, out, clock, lys_mod, real_waste):
     WT = lys_mod.WasteType
     types = [WT.MISFOLDED_PROTEIN, WT.EXPIRED_CACHE, WT.FAILED_OPERATION, WT.ORPHANED_RESOURCE]
     lys = lys_mod.Lysosome(max_queue_size=cfg["max_q"], auto_digest_threshold=cfg["auto"], retention_hours=1.0, silent=True)
+    if case.get("decoy"):
+        _decoys.lysosome(case["decoy"], lys_mod)
+        out.label("decoy")
     resources = []
     ingested = expired = dropped = 0
     out.label("builtin-digesters")
